@@ -62,15 +62,15 @@ Print Assumptions C53_model_is_reference.
 
 (* With bounded dictionaries (LRU eviction of counters and prison records, reloads) a key may be forgotten, but nobody
    is denied without cause: for every rule with period >= 0, every capacity and every history whose request times are
-   non-decreasing, each denied request (key k, time t) of the LRU model is preceded by a window [s, s+period], s a
+   non-decreasing and whose reloads change only the dictionary sizes (stable), each denied request (key k, time t) of the LRU model is preceded by a window [s, s+period], s a
    request time of k, that already holds more than threshold requests of k, and t < s + period + stay. *)
 Theorem C53_eviction_denials_justified : forall c, 0 <= c_period c -> forall ops past st m,
-  Inv c past st -> times_le past m -> sorted_from m ops = true ->
+  Inv c past st -> times_le past m -> sorted_from m ops = true -> stable ops = true ->
   all_justified c past ops (run_lru c st ops) = true.
 Proof. exact run_lru_justified. Qed.
 Print Assumptions C53_eviction_denials_justified.
 
-(* Central theorem.  wf_C53 i: the input decodes and either the number of distinct keys does not exceed either
+(* Central theorem.  wf_C53 i: the input decodes, no reload changes period/stay/threshold (stable), and either the number of distinct keys does not exceed either
    dictionary size (no eviction possible; prop_C53 = equality with the reference automaton), or period >= 0 and the
    request times are non-decreasing (eviction possible; prop_C53 = every denial is justified).  On every such input
    the executable property predicate the harness evaluates on the implementation holds of the model; there is no
